@@ -20,19 +20,38 @@ Theorem C06_globcache_seq_inv : forall size calls, 0 < size ->
 Proof. exact globcache_seq_inv_l. Qed.
 Print Assumptions C06_globcache_seq_inv.
 
-(* ... and in every interleaving of any number of Gets, whatever else goes wrong (below), a Get that
-   returns a glob returns the one compiled from the requested pattern, an error only if it does not compile *)
+(* ---- the host-pattern cache under concurrency: the code as it is (fix d9b7eff: lock-free fast path,
+   then re-check and bookkeeping in one critical section) ---- *)
+(* A fresh cache of any size > 0, any number of goroutines each calling Get with any pattern, EVERY
+   schedule - hence every reachable state: n <= size, at most size map entries, all of them in l; no Get
+   has panicked; every finished Get has returned the glob compiled from its own pattern (an error only
+   for a pattern that does not compile). *)
+Theorem C06_globcache_conc_inv : forall size calls sched, 0 < size ->
+  let r := run g_step sched (gc_new size) (map (fun c => g_init (fst c) (snd c)) calls) in
+  c_n (fst r) <= size /\ length (m_keys (c_m (fst r))) <= size /\ incl (m_keys (c_m (fst r))) (c_l (fst r))
+  /\ length (c_l (fst r)) = size /\ Forall q_thread_ok (snd r).
+Proof. exact globcache_conc_inv_l. Qed.
+Print Assumptions C06_globcache_conc_inv.
+
+(* the same from any state that satisfies the sequential invariant, with threads anywhere in their Get *)
+Theorem C06_globcache_every_schedule : forall size sched s ts, gc_inv size s -> Forall q_thread_ok ts ->
+  gc_inv size (fst (run g_step sched s ts)) /\ Forall q_thread_ok (snd (run g_step sched s ts)).
+Proof. exact globcache_every_schedule_l. Qed.
+Print Assumptions C06_globcache_every_schedule.
+
+(* ---- the cache BEFORE fix d9b7eff ([g_step_unrepaired]: no mutex, every access its own action) ---- *)
+(* even there a Get that returned a glob returned the one compiled from the requested pattern ... *)
 Theorem C06_globcache_any_schedule_result : forall sched s ts, m_wf (c_m s) -> Forall g_thread_ok ts ->
-  m_wf (c_m (fst (run g_step sched s ts))) /\ Forall g_thread_ok (snd (run g_step sched s ts)).
+  m_wf (c_m (fst (run g_step_unrepaired sched s ts))) /\ Forall g_thread_ok (snd (run g_step_unrepaired sched s ts)).
 Proof. exact globcache_any_schedule_result_l. Qed.
 Print Assumptions C06_globcache_any_schedule_result.
 
-(* findings F-C06-3 / F-C06-4: the ring bookkeeping is unsynchronised.  Two goroutines on a cache of
+(* ... but (findings F-C06-3 / F-C06-4, fixed by d9b7eff) the ring bookkeeping was unsynchronised.  Two goroutines on a cache of
    size 1: n = 2 > len(l), two map entries; after one more miss the head is outside the ring and every
    later miss panics, for ever.  Second witness: the immediate index-out-of-range panic. *)
 Theorem C06_globcache_race_refuted :
-  exists sched, let '(s, ts) := run g_step sched (gc_new 1) [g_init (bs "a*") true; g_init (bs "b*") true] in
-    g_results ts = [Some (Ok (bs "a*")); Some (Ok (bs "b*"))]
+  exists sched, let '(s, ts) := run g_step_unrepaired sched (gc_new 1) [g_init_unrepaired (bs "a*") true; g_init_unrepaired (bs "b*") true] in
+    g_results_unrepaired ts = [Some (Ok (bs "a*")); Some (Ok (bs "b*"))]
     /\ c_n s = 2 /\ length (c_l s) = 1 /\ length (m_keys (c_m s)) = 2
     /\ let '(s1, o1) := gc_get s (bs "c*") true in o1 = Some (Ok (bs "c*")) /\ c_h s1 = 1
     /\ let '(s2, o2) := gc_get s1 (bs "d*") true in o2 = Some Panic /\ s2 = s1
@@ -41,8 +60,8 @@ Proof. exact globcache_race_refuted_w. Qed.
 Print Assumptions C06_globcache_race_refuted.
 
 Theorem C06_globcache_race_panic_refuted :
-  exists sched, let '(s, ts) := run g_step sched (gc_new 1) [g_init (bs "a*") true; g_init (bs "b*") true] in
-    g_results ts = [Some (Ok (bs "a*")); Some Panic].
+  exists sched, let '(s, ts) := run g_step_unrepaired sched (gc_new 1) [g_init_unrepaired (bs "a*") true; g_init_unrepaired (bs "b*") true] in
+    g_results_unrepaired ts = [Some (Ok (bs "a*")); Some Panic].
 Proof. exact globcache_race_panic_w. Qed.
 Print Assumptions C06_globcache_race_panic_refuted.
 
@@ -52,7 +71,7 @@ Proof. exact gc_dead_state_l. Qed.
 Print Assumptions C06_globcache_dead_state.
 
 (* ---- round robin ---- *)
-(* IF a pick is one fetch-and-add: for every schedule, every number of goroutines and of picks each,
+(* The code as it is (fix 633ec31: a pick is one fetch-and-add): for every schedule, every number of goroutines and of picks each,
    the cursor values the picks indexed the ring with are exactly the next j consecutive values of the
    cursor (uint64 wrap included), each once: every ring position gets its exact share. *)
 Theorem C06_rr_atomic_exact : forall sched c ts, (c < two64)%N ->
@@ -61,20 +80,28 @@ Theorem C06_rr_atomic_exact : forall sched c ts, (c < two64)%N ->
 Proof. exact rr_atomic_exact_l. Qed.
 Print Assumptions C06_rr_atomic_exact.
 
-(* finding F-C06-2: rrPicker as written (plain read, later atomic add): both goroutines index slot 0,
+(* hence exact shares: k full turns of the ring from any cursor value (no uint64 wrap inside the run) use
+   every ring position exactly k times, so with C06_rr_atomic_exact every target receives exactly
+   k x (its number of ring slots) of the k*len lookups performed, under every interleaving *)
+Theorem C06_rr_exact_shares : forall len c k p, 0 < len -> (c + N.of_nat (k * len) <= two64)%N -> p < len ->
+  count_nat p (positions len (consecutive c (k * len))) = k.
+Proof. exact rr_exact_shares_l. Qed.
+Print Assumptions C06_rr_exact_shares.
+
+(* finding F-C06-2 (fixed by 633ec31): rrPicker before the fix ([rr_step_unrepaired]: plain read, later atomic add): both goroutines index slot 0,
    slot 1 is skipped, although the cursor advanced by two *)
 Theorem C06_rr_torn_refuted :
-  exists sched, let '(total, ts) := run rr_step_torn sched 0%N [rr_init 1; rr_init 1] in
+  exists sched, let '(total, ts) := run rr_step_unrepaired sched 0%N [rr_init 1; rr_init 1] in
     total = 2%N /\ map rr_seen ts = [[0%N]; [0%N]] /\ ~ Permutation (all_seen ts) (consecutive 0 2).
 Proof. exact rr_torn_refuted_w. Qed.
 Print Assumptions C06_rr_torn_refuted.
 
-(* ... while the cursor itself stays exact under every interleaving of the code as written: cursor plus
+(* ... while the cursor itself stayed exact under every interleaving even before the fix: cursor plus
    the picks still pending is invariant (mod 2^64), so when all goroutines are done it has advanced by
    exactly the number of picks *)
 Theorem C06_rr_torn_counter_exact : forall sched c ts, Forall rr_wf ts ->
-  Forall rr_wf (snd (run rr_step_torn sched c ts)) /\
-  N.modulo (fst (run rr_step_torn sched c ts) + N.of_nat (pending_sum (snd (run rr_step_torn sched c ts)))) two64
+  Forall rr_wf (snd (run rr_step_unrepaired sched c ts)) /\
+  N.modulo (fst (run rr_step_unrepaired sched c ts) + N.of_nat (pending_sum (snd (run rr_step_unrepaired sched c ts)))) two64
   = N.modulo (c + N.of_nat (pending_sum ts)) two64.
 Proof. exact rr_torn_counter_exact_l. Qed.
 Print Assumptions C06_rr_torn_counter_exact.
